@@ -564,7 +564,15 @@ func (c *EvalCtx) evalField(e *SExpr) (SV, error) {
 		return SV{V: TV{vb.T}, T: p.T}, nil
 	}
 	ft := derefType(p.T)
-	if _, isStruct := ft.Underlying().(*types.Struct); isStruct {
+	_, isTargetStruct := ex.tm.isTargetStruct(ft)
+	valueLike := false
+	if _, isStruct := ft.Underlying().(*types.Struct); isStruct && !isTargetStruct {
+		// external struct types with value-receiver methods (time.Time,
+		// digest.Digest) are opaque values; those with pointer-receiver
+		// methods only (sync.Mutex, atomic.Uint64) are objects
+		valueLike = types.NewMethodSet(ft).Len() > 0 || types.NewMethodSet(types.NewPointer(ft)).Len() == 0
+	}
+	if _, isStruct := ft.Underlying().(*types.Struct); isStruct && !valueLike {
 		// struct-typed field (also of an external type such as sync.Mutex):
 		// denote it by its address
 		if l, ok := p.V.(Loc); ok {
@@ -719,6 +727,32 @@ func (c *EvalCtx) evalCall(e *SExpr) (SV, error) {
 		}
 		arr := ex.heapGet(c.st, "G:closed", SArray(SInt, SBool))
 		return SV{V: TV{ts.Select(arr, l)}, T: boolT}, nil
+	case "suffixof":
+		// suffixof(s, t, k): slice s is t[k:] (same backing array)
+		if len(e.Args) != 3 {
+			return SV{}, fmt.Errorf("suffixof takes three arguments")
+		}
+		s, _, err := c.evalTerm(e.Args[0])
+		if err != nil {
+			return SV{}, err
+		}
+		t, _, err := c.evalTerm(e.Args[1])
+		if err != nil {
+			return SV{}, err
+		}
+		k, _, err := c.evalTerm(e.Args[2])
+		if err != nil {
+			return SV{}, err
+		}
+		if s.Sort.Name != "Slice" || t.Sort.Name != "Slice" {
+			return SV{}, fmt.Errorf("suffixof wants slices")
+		}
+		sl := ex.tm.slice
+		return SV{V: TV{ts.And(
+			ts.Eq(ts.SelectField(sl, 0, s), ts.SelectField(sl, 0, t)),
+			ts.Eq(ts.SelectField(sl, 1, s), ts.Add(ts.SelectField(sl, 1, t), k)),
+			ts.Eq(ts.SelectField(sl, 2, s), ts.Sub(ts.SelectField(sl, 2, t), k)),
+			ts.Le(ts.Int(0), k), ts.Le(k, ts.SelectField(sl, 2, t)))}, T: boolT}, nil
 	case "unchanged":
 		// unchanged(): nothing in the (modelled) heap differs from the old state:
 		// no store and no call with side effects happened on this path. Lock and
